@@ -41,6 +41,8 @@ def main():
     tv = TV()
     report(ck, results, {'C01': True, 'findings': ('behaviour',)}, tv)
     tv.close()
+    import xk
+    xk.string_kernel(ck, ('C01',))
     for r in results[:2] + results[100:102]:
         ck.sample({'program': r['name'], 'status': r['status'], 'reference_paths': r['ref_paths'], 'binary_paths': r['bin_paths'], 'obligations': r['obligations']})
     ck.cov['disagreements_checked'] = ck.cov['obligations']
@@ -49,6 +51,7 @@ def main():
               "reference semantics ref/xref.py written from xhexnotes.pdf; paths the reference deems undefined (unassigned reads, subscripts out of range, overflow of + - and of a comparison difference in either direction, "
               "non-boolean operands of and/or/~, side-effecting calls in operand positions whose order is open) are removed by assumption and counted",
               "the evaluation-order exclusion is static and conservative (stricter than the property's subset): fewer programs are checked, none wrongly",
+              "packed string literals: CodeBuffer::genString is additionally executed as a kernel on literals of 0..9 (thorough 17) arbitrary characters and z3 proves the DATA words equal the reference packing for every character value",
               "designated globals are the first declared and therefore the first DATA words after the stack-pointer word (checked on the -S listing of every program)",
               "bounds: <= 2000 (quick) / 4000 (thorough) executed instructions, <= 64 paths and 60 s per program; paths cut there are counted, never claimed",
               "the binary runs on hexsim::Processor::run (+syscall), whose conformance to the ISA is C02; HexSimIO cut to (byte, stream) events")
